@@ -65,6 +65,15 @@ Proof.
 Qed.
 Print Assumptions C16_reassembly_after_abandoned_attempt.
 
+(* the history behind D33, from the receiver's point of view: the first j blocks of a message arrive, the attempt is given up (a later
+   block was refused on the line), the sender starts over with the same system bytes - the message is handed out exactly once,
+   complete, at the end of the second attempt, and nothing is kept *)
+Theorem C16_retry_after_failed_attempt : forall h data j, (j < length (split_blocks data h true))%nat ->
+  let bl := split_blocks data h true in
+  feed_k None (firstn j bl ++ bl) = (None, repeat None (j + (length bl - 1)) ++ [Some (with_block h (Z.of_nat (length bl)) true, data)]).
+Proof. exact reassembly_retry. Qed.
+Print Assumptions C16_retry_after_failed_attempt.
+
 (* corruption: a block with any single byte altered (length, header, data or checksum) is never accepted *)
 Theorem C16_corruption_detected : forall h data pos old nb,
   hdr_fields_ok h -> Forall (fun b => b < 256) data -> (length data <= 244)%nat ->
